@@ -34,6 +34,8 @@ def with_option(case, rng, prob=0.3):
         case['force_ortho'] = True
         if all(abs(a_) % 90 == 0 for a_ in case['stack']) or list(case['stack']) == list(case['stack'])[::-1]:
             case['stack'] = list(case['stack']) + [rng.choice([30., -55., 17.])]
+        if len(case['laminaprop']) == 3 or case['laminaprop'][0] == case['laminaprop'][1]:
+            case['laminaprop'] = (142.5e9, 8.7e9, 0.28, 5.1e9, 5.1e9, 5.1e9)      # the option is void for an isotropic ply
     return case
 
 
@@ -159,10 +161,10 @@ def exchange_case(case):
 
 
 def pair_axis_exchange(ctx, rng):
-    case = with_option(pc.gen_panel_case(rng, models=('Plate',), max_mn=4, y12=False), rng, 0.4)
+    case = with_option(pc.gen_panel_case(rng, models=('Plate',), max_mn=4, y12=False), rng, 0.5)
     for k in case['flags']:
         case['flags'][k] = float(rng.choice([0, 1]))
-    case['m'] = case['n'] = rng.choice([3, 4])
+    case['m'] = case['n'] = rng.choice([5, 6])       # beyond the four edge functions: no field is switched off by its flags
     for f in 'w':       # keep the plate restrained enough for a positive definite stiffness
         for e in ('1t', '2t'):
             for d in 'xy':
@@ -172,6 +174,17 @@ def pair_axis_exchange(ctx, rng):
     N = (rng.uniform(-5, -1), rng.uniform(-5, 0), 0.)
     A, _ = mats(case, N=N)
     B, _ = mats(exchange_case(case), N=(N[1], N[0], N[2]))
+    # the matrices themselves: exchanging the axes permutes the amplitudes, (u, i, j) <-> (v, j, i), (w, i, j) <-> (w, j, i)  (m = n)
+    m_ = case['m']
+    perm = np.zeros(3 * m_ * m_, dtype=int)
+    for i in range(m_):
+        for j in range(m_):
+            for al, be in ((0, 1), (1, 0), (2, 2)):
+                perm[3 * (j * m_ + i) + al] = 3 * (i * m_ + j) + be
+    for name in ('k0', 'kG0', 'kM'):
+        d = pc.rel_diff(A[name], B[name][np.ix_(perm, perm)])
+        if d > 1e-9:
+            return case, '%s changes under the exchange of x and y beyond the permutation of the amplitudes (rel %.3e)' % (name, d)
     for name, (P, Q) in (('buckling', ('kG0', 'k0')), ('frequency', ('k0', 'kM'))):
         try:
             wa = lowest(A[P], A[Q])
@@ -225,7 +238,7 @@ def correspondence(ctx):
     pc.translated(ctx)
     rng = ctx.rng
     dist = {}
-    for t in range(ctx.scale(5, 40)):
+    for t in range(ctx.scale(8, 40)):
         for fn in PAIRS:
             c, bad = fn(ctx, rng)
             ctx.evaluations += 1
@@ -239,7 +252,50 @@ def correspondence(ctx):
     ctx.cov['input_distribution'] = dist
 
 
+def source_arm(ctx, reason):
+    """model arm: the SOURCE AS WRITTEN (translated kernels interpreted) for the two descriptions of one structure; finds what a stale
+    binary hides.  Pairs: conical panel at zero angle / cylindrical panel; w-only plate / w-block of the plate."""
+    from tools import panel_v
+    try:
+        ir = pc.translated(ctx)
+    except Exception as e:
+        ctx.log('translator unusable for the model arm: %s' % e)
+        return False
+    rng = ctx.rng
+    for t in range(ctx.scale(12, 60)):
+        case = pc.gen_panel_case(rng, models=('KPanel',), max_mn=3)
+        case['alphadeg'] = 0.
+        N = dict(Nxx=rng.uniform(-5, 5), Nyy=rng.uniform(-5, 5), Nxy=rng.uniform(-5, 5))
+        c2 = dict(case, lean_model='CPanel', model=pc.MODEL_OF['CPanel'], alphadeg=None)
+        pk, pcyl = pc.make_panel(case), pc.make_panel(c2)
+        for p_ in (pk, pcyl):
+            pc.quiet(p_.calc_k0, silent=True)
+        size = pk.get_size()
+        y12 = case['y1'] is not None
+        for kname, extra in (('fk0', {}), ('fkG0', N), ('fkM', dict(d=-case['offset']))):
+            kn = kname + ('y1y2' if y12 else '')
+            params = dict(extra, y1=case['y1'], y2=case['y2'])
+            ctx.evaluations += 1
+            try:
+                A = panel_v.interp_kernel(ir['KPanel'][0][kn], ir['KPanel'][2], pk, params, size, 0, 0)
+                B = panel_v.interp_kernel(ir['CPanel'][0][kn], ir['CPanel'][2], pcyl, params, size, 0, 0)
+            except Exception as e:                                   # noqa
+                ctx.log('model arm: %s not interpretable (%s)' % (kn, e))
+                continue
+            d = pc.rel_diff(A, B)
+            if d > 1e-9:
+                i, j = np.unravel_index(np.abs(A - B).argmax(), A.shape)
+                ctx.violation('C14 fails on the source as written: %s of the conical panel kernel at zero semi-vertex angle gives %.6e at [%d,%d], '
+                              'the cylindrical panel kernel %.6e (rel %.3e of the matrix); the running binary is stale w.r.t. this source if '
+                              'the implementation arm stays quiet' % (kn, A[i, j], i, j, B[i, j], d),
+                              dict(case=case, loads=N, kernel=kn, source_arm=True, broken=reason))
+                return True
+    return False
+
+
 def search(ctx, reason):
+    if source_arm(ctx, reason):
+        return True
     rng = ctx.rng
     for t in range(ctx.scale(10, 60)):
         for fn in PAIRS:
